@@ -463,9 +463,11 @@ impl ClusterActor {
             .map(|w| w.get())
             .unwrap_or(0);
 
-        // Adjust end_sequence to respect watermark
+        // Adjust end_sequence to respect watermark. The watermark is the number of confirmed
+        // events, i.e. an exclusive bound, while `end_sequence` is inclusive: work with the
+        // first sequence that must not be returned.
         let effective_end_sequence = match end_sequence {
-            Some(end) => end.min(watermark),
+            Some(end) => end.saturating_add(1).min(watermark),
             None => watermark,
         };
 
@@ -479,11 +481,11 @@ impl ClusterActor {
             "reading partition locally"
         );
 
-        // If start_sequence is beyond watermark, no events to return
-        if start_sequence > watermark {
+        // If start_sequence is at or beyond the end of the range, no events to return
+        if start_sequence >= effective_end_sequence {
             reply_sender.send(Ok(PartitionEvents {
                 events: Vec::new(),
-                has_more: false,
+                has_more: start_sequence < watermark,
             }));
             return;
         }
@@ -526,7 +528,7 @@ impl ClusterActor {
                         }
 
                         // Check if event is beyond effective end sequence
-                        if event.partition_sequence > effective_end_sequence {
+                        if event.partition_sequence >= effective_end_sequence {
                             break 'iter;
                         }
 
@@ -541,9 +543,7 @@ impl ClusterActor {
                     break;
                 }
 
-                if events.last().map(|e| e.partition_sequence).unwrap_or(0)
-                    >= effective_end_sequence
-                {
+                if last_read_sequence >= effective_end_sequence {
                     break;
                 }
             }
@@ -668,8 +668,8 @@ impl ClusterActor {
                         }
 
                         // Check if event is beyond watermark (safety check - uses
-                        // partition_sequence)
-                        if event.partition_sequence > watermark {
+                        // partition_sequence); the watermark is an exclusive bound
+                        if event.partition_sequence >= watermark {
                             break 'iter;
                         }
 
